@@ -418,6 +418,7 @@ PROPS = {
         "replay": [gen_h("build", 1), gen_h("build", 2), gen_h("build", 3), gen_h("build", 4, skip=(True, False)),
                    gen_h("cw", 1), gen_h("cw", 2), gen_h("cw", 3), gen_h("cw", 4), gen_h("cw", 10), gen_h("cw", 100)] + H_HIST[:3],
         "trace": [tr_h(10), tr_h(100, n=("1500", "10000"))],
+        "direct": [{"cmd": "direct", "family": "buildscan", "args": {}}],
         "rule": "every list of length 0..LEN+1 over the nine tokens (NaN included) plus six kinds of surplus tail on every full-length "
                 "list, LEN 1..3 (4 thorough): result kind, first-offence error, edges handed back bit for bit; with_const_width on "
                 "21 integer pairs x 16 power-of-two scales (2^-100..2^100) for LEN 1,2,3,4,10,100; random lists for LEN 10/100 via traces",
